@@ -95,7 +95,9 @@ pub fn simulate(ops: &[(u8, Op)]) -> (usize, usize, usize) {
 fn config_bytes(with_data: bool) -> impl Strategy<Value = [u8; 4]> {
     // in "with data" sequences half of the configs name the bundled data directory, so that contexts
     // are also re-configured between a config with and one without it
-    (any::<u8>(), 1u8..16, any::<u8>(), 0u8..8, any::<bool>()).prop_map(move |(l, d, lo, hi, pick)| [l, if with_data && pick { 0 } else { d }, lo, hi])
+    // the high bits of the last byte choose the optional user files of the run (0 = none; see the target)
+    (any::<u8>(), 1u8..16, any::<u8>(), 0u8..8, any::<bool>(), prop_oneof![5 => Just(0u8), 1 => Just(1u8), 2 => Just(2u8), 1 => Just(3u8), 1 => Just(4u8), 1 => Just(5u8)])
+        .prop_map(move |(l, d, lo, hi, pick, flavour)| [l, if with_data && pick { 0 } else { d }, lo, hi | (flavour << 3)])
 }
 
 pub fn sequence(with_data: bool) -> impl Strategy<Value = ([u8; 4], Vec<(u8, Op)>)> {
@@ -192,6 +194,9 @@ pub fn run(run: &Run) {
             if live > 0 {
                 st.label("suggestions-outlive-their-context");
             }
+            if (h[3] >> 3) & 7 == 2 {
+                st.label("user-files-that-are-not-utf-8");
+            }
             if ops.iter().take(64).any(|(_, o)| matches!(o, Op::KeyBurst(_, _, _, n) if (*n as usize % 96) + 2 >= 90)) {
                 st.label("composition-of-90-or-more-keys");
             }
@@ -247,6 +252,7 @@ pub fn run(run: &Run) {
     run.require_label("suggestions-outlive-their-context", 100);
     run.require_label("sequence-with-bundled-dictionary", 10);
     run.require_label("composition-of-90-or-more-keys", 30);
+    run.require_label("user-files-that-are-not-utf-8", 100);
 }
 
 /// Replay of a saved fuzzer input (raw bytes).
